@@ -59,7 +59,7 @@ def all_entries():
                                         ensemble_algorithm=NormalHedgeEnsemble(n_estimators=2, loss_func=mean_squared_error))
     L.append({"name": "fc_online_ensemble", "kind": "forecaster", "factory": online, "req": False})
     for e in E.series_transformers() + E.panel_transformers() + E.classifiers() + E.regressors():
-        if e["name"] != "optpass_reconfigured":     # deliberately handed over in a fitted, re-parameterised state
+        if not e["name"].endswith("reconfigured"):     # deliberately handed over in a fitted, re-parameterised state
             L.append(dict(e))
     return L
 
